@@ -369,6 +369,55 @@ def string_probes(ck, pool, n):
     return fails
 
 
+def bracket_probes(ck, pool, n):
+    """DIRECT oracle for raw declaration values (custom properties, expression()): values with nested brackets of all
+    three kinds at depth 1-3, with strings / comments / escapes that contain stray brackets, and — in half of the
+    probes — exactly one closer replaced by a closer of another kind.  Whenever grass succeeds the output must be
+    well-formed (Lean `wellFormed`, python reader) and recompile as CSS; a mismatched closer must be rejected."""
+    rng = ck.rng
+    ps = [cc.gen_bracket_probe(rng, i) for i in range(n)]
+    jobs = [compile_job(p["src"], style=st, syntax="scss", charset=False) for p in ps for st in STYLES]
+    ans = cc.run_jobs(pool, jobs)
+    fails, reqs, owner, second, sowner = [], [], [], [], []
+    for i, p in enumerate(ps):
+        for j, st in enumerate(STYLES):
+            a = ans[2 * i + j]
+            cfg = st or "expanded"
+            ck.count(("bracket-probe", p["src"], st), True)
+            ck.hist(f"bracket-probe:{'matched' if p['matched'] else 'mismatched'}:{a.get('status')}")
+            if a.get("status") == "ok":
+                if not p["matched"]:
+                    fails.append({"key": "brackets:" + hexs(p["src"])[:40], "src": p["src"], "cfg": cfg, "output": a["css"],
+                                  "what": "a raw declaration value whose bracket is closed by the wrong kind of closer is accepted",
+                                  "value": p["value"]})
+                reqs.append("ser wf " + hexs(a["css"]))
+                owner.append((p, cfg, a["css"]))
+                second.append(compile_job(a["css"], style=st, syntax="css", charset=False))
+                sowner.append((p, cfg, a["css"]))
+            elif p["matched"]:
+                fails.append({"key": "brackets:" + hexs(p["src"])[:40], "src": p["src"], "cfg": cfg,
+                              "what": "a raw declaration value with properly nested brackets is rejected",
+                              "value": p["value"], "error": (a.get("err") or {}).get("message") or a.get("panic")})
+    outs = driver(reqs) if reqs else []
+    for (p, cfg, css), o in zip(owner, outs):
+        try:
+            cssread.parse(css)
+            rd = True
+        except cssread.IllFormed as e:
+            rd = str(e)
+        if o != "ok 1" or rd is not True:
+            fails.append({"key": "brackets:" + hexs(p["src"])[:40], "src": p["src"], "cfg": cfg, "output": css,
+                          "what": "output is not well-formed (unbalanced block/string/comment)", "lean_wellFormed": o,
+                          "python_reader": rd, "value": p["value"]})
+    sec = cc.run_jobs(pool, second) if second else []
+    for (p, cfg, css), a2 in zip(sowner, sec):
+        if p["matched"] and a2.get("status") != "ok":
+            fails.append({"key": "brackets:" + hexs(p["src"])[:40], "src": p["src"], "cfg": cfg, "output": css,
+                          "what": "output does not recompile", "second_status": a2.get("status"),
+                          "second_error": (a2.get("err") or {}).get("message") or a2.get("panic"), "value": p["value"]})
+    return fails
+
+
 def corpus_progs(ck, tier):
     cs = cc.corpus_cases()
     excluded = [c for c in cs if c["name"] in NOT_CSS_REPRESENTABLE]
@@ -466,7 +515,9 @@ def run(tier, seed):
         "READER: for trees with the guard treeReadable (flag computed by the driver; histogram tie:treeReadable=…), grass's "
         "expanded output is recompiled by grass as CSS and both texts are read by the Lean reader readTree "
         "(C05_read_roundtrip / C05_fixed_point_model): same tree required, with and without charset header. "
-        "DIRECT: generated strings written as literals, the printed token judged by the Lean driver (quotedOk, unescape = "
+        "DIRECT: raw declaration values (custom properties, expression()) with nested brackets of the three kinds at depth "
+        "1-3, strings/comments/escapes holding stray brackets, half of them with one closer of the wrong kind: success => "
+        "well-formed + recompiles, mismatch => must be rejected; generated strings written as literals, the printed token judged by the Lean driver (quotedOk, unescape = "
         "intended string) in both styles; the same sources + generated SassScript programs + golden-corpus test inputs (no random()/unique-id(); "
         f"{len(NOT_CSS_REPRESENTABLE)} named cases whose input injects non-CSS text are excluded, see "
         "corpus_excluded_not_css_representable), each in 4 configurations, then each of the 2 charset-on outputs "
@@ -489,6 +540,7 @@ def run(tier, seed):
     log(f"[C05] tie: {len(tcases)} trees, disagreements={ck.cov['model_disagreements']}")
     fails = []
     fails += string_probes(ck, pool, 2000 if tier == "quick" else 30000)
+    fails += bracket_probes(ck, pool, 1200 if tier == "quick" else 12000)
     # direct oracle: generated trees (as programs), generated programs, corpus
     n_clean = len(CORPUS) + int(0.4 * n_tie)
     tprogs = [{"key": "tree:" + str(i), "src": c["src"], "syntax": "scss"} for i, c in enumerate(tcases[:n_clean])]
